@@ -10,11 +10,14 @@ import (
 	"encoding/json"
 	"fmt"
 	"os"
+	"os/exec"
 	"path/filepath"
 	"sort"
 	"strconv"
 	"strings"
 	"sync"
+	"sync/atomic"
+	"syscall"
 	"time"
 
 	"verif/lib"
@@ -629,13 +632,7 @@ func (d *driver) runAccepted(bs []base, c cspec) {
 	p := filepath.Join(dir, lib.Hash(c.ID)+".php")
 	_ = os.WriteFile(p, text, 0o644)
 	defer os.Remove(p)
-	r := lib.RunProc(lib.ProcSpec{
-		Argv:    []string{"/bin/sh", "-c", `ulimit -t 1; ulimit -v 8388608; exec "$0" "$1"`, e.Origami(), p},
-		Env:     []string{"GOMAXPROCS=2"},
-		Dir:     dir,
-		Timeout: 120 * time.Second,
-		MaxOut:  1 << 20,
-	})
+	r, cpuKilled := runCLI([]string{"/bin/sh", "-c", `ulimit -v 8388608; ulimit -t 2; exec "$0" "$1"`, e.Origami(), p}, dir, mutantCPU)
 	d.count("executed")
 	switch {
 	case r.TimedOut:
@@ -646,7 +643,7 @@ func (d *driver) runAccepted(bs []base, c cspec) {
 		}
 		d.mu.Unlock()
 		return
-	case r.Signal == "killed" || r.Signal == "cpu time limit exceeded" || strings.Contains(r.Signal, "CPU"):
+	case cpuKilled || r.Signal == "killed" || r.Signal == "cpu time limit exceeded" || strings.Contains(r.Signal, "CPU"):
 		d.count("skipped_nonterminating")
 		return
 	case strings.Contains(r.Stderr, "out of memory") || strings.Contains(r.Stderr, "cannot allocate memory"):
@@ -706,4 +703,85 @@ func crashSite(trace string) string {
 		}
 	}
 	return lib.PanicSite(trace)
+}
+
+// mutantCPU is the CPU time an accepted mutant of a generated program may use before it is
+// counted as non-terminating (a run normally takes about 10 ms of CPU).
+const mutantCPU = 300 * time.Millisecond
+
+// runCLI runs one CLI process to completion. The process is ended when its CPU time (read from
+// /proc, never wall clock) passes cpuLimit; the wall-clock watchdog only marks the result.
+func runCLI(argv []string, dir string, cpuLimit time.Duration) (r lib.ProcResult, cpuKilled bool) {
+	cmd := exec.Command(argv[0], argv[1:]...)
+	cmd.Dir = dir
+	cmd.Env = append(os.Environ(), "GOMAXPROCS=2")
+	var so, se capBuf
+	so.max, se.max = 64<<10, 1<<20
+	cmd.Stdout, cmd.Stderr = &so, &se
+	cmd.SysProcAttr = &syscall.SysProcAttr{Setpgid: true}
+	if err := cmd.Start(); err != nil {
+		r.Err, r.Exit = err, -2
+		return
+	}
+	pid := cmd.Process.Pid
+	done := make(chan struct{})
+	var killedCPU, killedWall atomic.Bool
+	go func() {
+		start := time.Now()
+		stat := fmt.Sprintf("/proc/%d/stat", pid)
+		for {
+			select {
+			case <-done:
+				return
+			case <-time.After(20 * time.Millisecond):
+			}
+			if b, err := os.ReadFile(stat); err == nil {
+				if i := bytes.LastIndexByte(b, ')'); i >= 0 {
+					f := strings.Fields(string(b[i+1:]))
+					if len(f) > 12 {
+						ut, _ := strconv.ParseInt(f[11], 10, 64)
+						st, _ := strconv.ParseInt(f[12], 10, 64)
+						if time.Duration(ut+st)*10*time.Millisecond > cpuLimit {
+							killedCPU.Store(true)
+							_ = syscall.Kill(-pid, syscall.SIGKILL)
+							return
+						}
+					}
+				}
+			}
+			if time.Since(start) > 120*time.Second {
+				killedWall.Store(true)
+				_ = syscall.Kill(-pid, syscall.SIGKILL)
+				return
+			}
+		}
+	}()
+	_ = cmd.Wait()
+	close(done)
+	r.Stdout, r.Stderr = so.buf.String(), se.buf.String()
+	r.TimedOut = killedWall.Load()
+	if ws, ok := cmd.ProcessState.Sys().(syscall.WaitStatus); ok {
+		if ws.Signaled() {
+			r.Exit, r.Signal = -1, ws.Signal().String()
+		} else {
+			r.Exit = ws.ExitStatus()
+		}
+	}
+	return r, killedCPU.Load()
+}
+
+type capBuf struct {
+	buf bytes.Buffer
+	max int
+}
+
+func (w *capBuf) Write(p []byte) (int, error) {
+	if room := w.max - w.buf.Len(); room > 0 {
+		if len(p) > room {
+			w.buf.Write(p[:room])
+		} else {
+			w.buf.Write(p)
+		}
+	}
+	return len(p), nil
 }
